@@ -635,7 +635,7 @@ impl Interpreter {
         let target = match &list {
             Value::String(string) => string
                 .chars()
-                .nth((idx - 1.0) as usize)
+                .nth(Self::index_of(idx))
                 .map(|ch| Value::String(ch.to_string()))
                 .ok_or_else(|| RuntimeError {
                     named_source: NamedSource::new(
@@ -651,7 +651,7 @@ impl Interpreter {
                 }),
             Value::List(list) => {
                 list.borrow()
-                    .get((idx - 1.0) as usize)
+                    .get(Self::index_of(idx))
                     .cloned()
                     .ok_or_else(|| RuntimeError {
                         named_source: NamedSource::new(
@@ -712,7 +712,7 @@ impl Interpreter {
         };
 
         let mut list_borrowed = list.borrow_mut();
-        if let Some(target) = list_borrowed.get_mut((idx - 1.0) as usize) {
+        if let Some(target) = list_borrowed.get_mut(Self::index_of(idx)) {
             *target = value.clone();
         } else {
             return Err(RuntimeError {
@@ -730,6 +730,16 @@ impl Interpreter {
         }
 
         Ok(value)
+    }
+
+    /// zero-based position of the 1-based index `idx`;
+    /// an index below 1 (or NaN) maps to a position no list or string has
+    fn index_of(idx: f64) -> usize {
+        if idx >= 1.0 {
+            (idx - 1.0) as usize
+        } else {
+            usize::MAX
+        }
     }
 
     fn binary(&mut self, node: &Binary) -> Result<Value, RuntimeError> {
